@@ -577,6 +577,17 @@ pub fn coll(cx: &mut Ctx) {
         c.forms = forms(&["bound", "lit", "json"]);
         cx.out(c);
     }
+    // keys named like functions, macros and types: the entry is what `.name` and `['name']` give, and `has` sees it
+    let named = V::Map(vec![("all".into(), V::Int(1)), ("contains".into(), V::Int(2)), ("filter".into(), V::Int(3)), ("has".into(), V::Int(4)), ("int".into(), V::Int(5)),
+                            ("map".into(), V::Int(6)), ("size".into(), V::Int(7)), ("string".into(), V::Int(8))]);
+    for f in ["all", "contains", "filter", "has", "int", "map", "size", "string", "exists", "startsWith"] {
+        for t in [sel(id("m"), f), idx(id("m"), lit(V::Str(f.into()))), call("has", vec![sel(id("m"), f)]), bin("+", sel(id("m"), f), sel(id("m"), "size"))] {
+            let mut c = cx.case(t);
+            c.bind.insert("m".into(), named.clone());
+            c.forms = forms(&["bound", "lit", "json"]);
+            cx.out(c);
+        }
+    }
     // `in` over operand type pairs
     let mut lhs = boundary_pool();
     lhs.extend([V::Str("s".into()), V::Int(10), V::Uint(10), V::Dbl(10.0), V::List(vec![V::Int(1)])]);
@@ -1521,6 +1532,16 @@ pub fn total(cx: &mut Ctx) {
             let (a, b) = if cx.thorough { (pool[k / pool.len()].clone(), pool[k % pool.len()].clone()) } else { (cx.rng.pick(&pool).clone(), cx.rng.pick(&pool).clone()) };
             emit(cx, call(f, vec![id("x"), id("y")]), vec![("x".into(), a.clone()), ("y".into(), b.clone())]);
             emit(cx, mcall(id("x"), f, vec![id("y")]), vec![("x".into(), a), ("y".into(), b)]);
+        }
+        // all pairs over the extremes, in every tier
+        if !cx.thorough {
+            let ext = [V::Int(i64::MAX), V::Int(i64::MIN), V::Int(0), V::Int(-1), V::Uint(u64::MAX), V::Dbl(f64::NAN), V::Dbl(f64::INFINITY), V::Dbl(-1e300), V::Str(String::new()), V::Null];
+            for a in ext.iter() {
+                for b in ext.iter() {
+                    emit(cx, call(f, vec![id("x"), id("y")]), vec![("x".into(), a.clone()), ("y".into(), b.clone())]);
+                    emit(cx, mcall(id("x"), f, vec![id("y")]), vec![("x".into(), a.clone()), ("y".into(), b.clone())]);
+                }
+            }
         }
         let n3 = if cx.thorough { 600 } else { 40 };
         for _ in 0..n3 {
